@@ -301,4 +301,21 @@ PROPS = {
         "assumptions": ["logtags replaces the value of a tag whose key is added twice"],
         "parts": [rapid("aggregation", "TestProp", 40000, 800000)],
     },
+    "C15": {
+        "pkg": "c15",
+        "level": "exploration",
+        "level_text": "Generated search with shrinking: for every generated tree (local or decoded, where stacks are re-parsed from text; with many, some or no "
+                      "stacks; multi-cause included) the Sentry event is compared with an independent walk of the tree: message = [file:line: ] + the redacted "
+                      "%+v + '-- report composition:' + exactly one line per layer (innermost first, each naming its layer's type); exceptions = the layers "
+                      "that carry a reportable stack, outermost first, frames deep-equal to GetReportableStackTrace of that layer, exactly one stack-less "
+                      "exception when none; module = GetDomain; the 'error types' extra has one line '<type> (<family or *>::<extension>)' per layer, innermost first.",
+        "level_note": "The walk order of the report (node, single cause, then branches) is reproduced by an independent pre-order walk of the harness; only the "
+                      "structure is checked here, PII-safety and retention are C03/C12.",
+        "technique": "property-based testing (rapid): structural oracle relating BuildSentryReport to an independent tree walk and per-layer accessors",
+        "rule": "rapid-generated trees (one quarter without any stack-capturing kind, one quarter boosted with stacks and domains; multi-cause weight 2), regular "
+                "or hostile strings, local or decoded. Non-trivial = at least 3 layers and (at least 2 stacks, or none, or a multi-cause node). Part nil-report: "
+                "BuildSentryReport(nil). Distinct = hash of the case JSON.",
+        "assumptions": ["sentry-go v0.27.0 event structure"],
+        "parts": [rapid("report", "TestProp", 12000, 240000), plain("nil-report", "TestNilReport")],
+    },
 }
